@@ -10,7 +10,7 @@ import WowSrp.Gen.Constants
 import WowSrp.Gen.Facts
 namespace WowSrp
 
-def expected_glueTbc : List (List String) := [["fnencrypt(&mutself,data:&mut[u8]) {encrypt(data,self.key,&mutself.index,&mutself.previous_value);}", "fnwrite_encrypted_server_header<W:Write>(&mutself,mutwrite:W,size:u16,opcode:u16,)->std::io::Result<()> {letbuf=self.encrypt_server_header(size,opcode);write.write_all(&buf)?;Ok(())}", "fnwrite_encrypted_client_header<W:Write>(&mutself,mutwrite:W,size:u16,opcode:u32,)->std::io::Result<()> {letbuf=self.encrypt_client_header(size,opcode);write.write_all(&buf)?;Ok(())}", "fndecrypt(&mutself,data:&mut[u8]) {decrypt(data,&self.key,&mutself.index,&mutself.previous_value);}", "fnread_and_decrypt_server_header<R:Read>(&mutself,mutreader:R,)->std::io::Result<ServerHeader> {letmutbuf=[0_u8;SERVER_HEADER_LENGTHasusize];reader.read_exact(&mutbuf)?;Ok(self.decrypt_server_header(buf))}", "fnread_and_decrypt_client_header<R:Read>(&mutself,mutreader:R,)->std::io::Result<ClientHeader> {letmutbuf=[0_u8;CLIENT_HEADER_LENGTHasusize];reader.read_exact(&mutbuf)?;Ok(self.decrypt_client_header(buf))}"]]
+def expected_glueTbc : List (List String) := [["fnencrypt(&mutself,data:&mut[u8]) {encrypt(data,self.key,&mutself.index,&mutself.previous_value);}", "fnwrite_encrypted_server_header<W:Write>(&mutself,mutwrite:W,size:u16,opcode:u16,)->std::io::Result<()> {letbuf=self.encrypt_server_header(size,opcode);write.write_all(&buf)?;Ok(())}", "fnwrite_encrypted_client_header<W:Write>(&mutself,mutwrite:W,size:u16,opcode:u32,)->std::io::Result<()> {letbuf=self.encrypt_client_header(size,opcode);write.write_all(&buf)?;Ok(())}", "fnnew(session_key:[u8;SESSION_KEY_LENGTHasusize])->Self {constSEED_KEY_SIZE:usize=16;lets:[u8;SEED_KEY_SIZE]=[0x38,0xA7,0x83,0x15,0xF8,0x92,0x25,0x30,0x71,0x98,0x67,0xB1,0x8C,0x4,0xE2,0xAA,];letmutkey:Hmac<Sha1>=Hmac::new_from_slice(s.as_slice()).unwrap();key.update(&session_key);letkey=key.finalize().into_bytes().as_slice().try_into().unwrap();Self{key,index:0,previous_value:0,}}", "fndecrypt(&mutself,data:&mut[u8]) {decrypt(data,&self.key,&mutself.index,&mutself.previous_value);}", "fnread_and_decrypt_server_header<R:Read>(&mutself,mutreader:R,)->std::io::Result<ServerHeader> {letmutbuf=[0_u8;SERVER_HEADER_LENGTHasusize];reader.read_exact(&mutbuf)?;Ok(self.decrypt_server_header(buf))}", "fnread_and_decrypt_client_header<R:Read>(&mutself,mutreader:R,)->std::io::Result<ClientHeader> {letmutbuf=[0_u8;CLIENT_HEADER_LENGTHasusize];reader.read_exact(&mutbuf)?;Ok(self.decrypt_client_header(buf))}", "fndecrypt_server_header(&mutself,mutdata:[u8;SERVER_HEADER_LENGTHasusize],)->ServerHeader {self.decrypt(&mutdata);ServerHeader::from_array(data)}", "fndecrypt_client_header(&mutself,mutdata:[u8;CLIENT_HEADER_LENGTHasusize],)->ClientHeader {self.decrypt(&mutdata);ClientHeader::from_array(data)}", "fnnew(session_key:[u8;SESSION_KEY_LENGTHasusize])->Self {constSEED_KEY_SIZE:usize=16;lets:[u8;SEED_KEY_SIZE]=[0x38,0xA7,0x83,0x15,0xF8,0x92,0x25,0x30,0x71,0x98,0x67,0xB1,0x8C,0x4,0xE2,0xAA,];letmutkey:Hmac<Sha1>=Hmac::new_from_slice(s.as_slice()).unwrap();key.update(&session_key);letkey=key.finalize().into_bytes().as_slice().try_into().unwrap();Self{key,index:0,previous_value:0,}}"]]
 
 theorem glueTbc_ok : Gen.glueTbc = expected_glueTbc := by decide +kernel
 
